@@ -5,10 +5,13 @@ EXTENDS TimeSeries, Json
 CONSTANTS LMin, LMax, M, H
 VARIABLE c
 Series == UNION {[1..n -> (0 - M)..M] : n \in LMin..LMax}
-PhiSets == {<<<<1, 2>>>>, <<<<0 - 3, 4>>>>, <<<<1, 2>>, <<0 - 1, 4>>>>, <<<<0 - 1, 2>>, <<1, 8>>, <<1, 4>>>>}
-Hists == {<<3, 0 - 1, 4, 2>>, <<0, 0, 1, 0 - 2, 5>>, <<7, 7, 7, 7>>}
+\* orders 1, 1, 2, 3 and - every residue of the inner product's unroll width - 7, 8, 9 and 16
+PhiSets == {<<<<1, 2>>>>, <<<<0 - 3, 4>>>>, <<<<1, 2>>, <<0 - 1, 4>>>>, <<<<0 - 1, 2>>, <<1, 8>>, <<1, 4>>>>,
+            [k \in 1..7 |-> <<(k % 3) - 1, 4>>], [k \in 1..8 |-> <<((k * k) % 5) - 2, 8>>], [k \in 1..9 |-> <<1 - (k % 3), 4>>],
+            [k \in 1..16 |-> <<((k * 3) % 7) - 3, 16>>]}
+Hists == {<<3, 0 - 1, 4, 2>>, <<0, 0, 1, 0 - 2, 5>>, <<7, 7, 7, 7>>, [i \in 1..17 |-> ((i * i) % 7) - 3], [i \in 1..16 |-> (i % 4) - 1]}
 Init == \/ \E x \in Series : c = [fam |-> "series", x |-> x]
-        \/ \E phi \in PhiSets, d \in Hists, mu \in {R(0), R(2), <<0 - 5, 2>>} : c = [fam |-> "forecast", phi |-> phi, data |-> d, mu |-> mu]
+        \/ \E phi \in PhiSets, d \in Hists, mu \in {R(0), R(2), <<0 - 5, 2>>} : Len(d) >= Len(phi) /\ c = [fam |-> "forecast", phi |-> phi, data |-> d, mu |-> mu]
 Next == UNCHANGED c
 Spec == Init /\ [][Next]_c
 IsS == c.fam = "series"
